@@ -58,13 +58,17 @@ class EmuRun:
         return ls[:n]
 
 
-def ovniemu(bdir, tracedir, args=("-l",), timeout=60, env=None):
+def ovniemu(bdir, tracedir, args=("-l",), timeout=60, env=None, fsize_blocks=None):
+    """fsize_blocks: run with a file size limit of that many 512-byte blocks and SIGXFSZ ignored, so that
+    writes beyond it fail with EFBIG (as on a full disk or an exhausted quota)"""
     e = {"OVNI_CONFIG_DIR": empty_cfg(), "ASAN_OPTIONS": "detect_leaks=0",
          "UBSAN_OPTIONS": "print_stacktrace=1"}
     if env:
         e.update(env)
-    rc, out, err = core.run([core.tool(bdir, "ovniemu")] + list(args) + [tracedir],
-                            timeout=timeout, env=e)
+    cmd = [core.tool(bdir, "ovniemu")] + list(args) + [tracedir]
+    if fsize_blocks is not None:
+        cmd = ["sh", "-c", 'trap "" XFSZ; ulimit -f %d; exec "$@"' % fsize_blocks, "sh"] + cmd
+    rc, out, err = core.run(cmd, timeout=timeout, env=e)
     return EmuRun(rc, out, err)
 
 
